@@ -76,6 +76,7 @@ fn main() {
         "overflow" => overflow::run(seed, cases, &mut sink),
         "leafupd" => leafupd::run(seed, cases, &mut sink),
         "lockrec" => lockrec::run(seed, cases, &mut sink, &args),
+        "lockrec-aba" => lockrec::aba(seed, cases, &mut sink),
         "pipeline" => pipeline::run(seed, cases, &mut sink, &args),
         "walker" => {
             let focus = arg(&args, "--focus").unwrap_or_else(|| "all".into());
